@@ -9,6 +9,11 @@ use serde::{Deserialize, Serialize};
 use std::cell::RefCell;
 use std::collections::BTreeMap;
 
+extern "C" {
+    fn diplomat_alloc(size: usize, align: usize) -> *mut u8;
+    fn diplomat_free(ptr: *mut u8, size: usize, align: usize);
+}
+
 thread_local! {
     static LEDGER: RefCell<BTreeMap<u64, u32>> = RefCell::new(BTreeMap::new());
     static NEXT: RefCell<u64> = RefCell::new(1);
@@ -88,6 +93,9 @@ pub enum Op {
     Clone(usize),
     AsRef(usize),
     Drop(usize),
+    /// a foreign-side scratch buffer, as the JS and Dart glue makes one for every string / list argument (zero bytes for an
+    /// empty one): diplomat_alloc(size, 1 << align_log2), fill, diplomat_free with the same size and alignment
+    ScratchBuf(usize, u8),
 }
 
 #[derive(Clone, Debug, Serialize, Deserialize)]
@@ -191,6 +199,21 @@ pub fn check(case: &Case) -> Result<(), String> {
                 let v: DiplomatOwnedSlice<Tok> = unsafe { std::mem::transmute(m) };
                 pool.push(Slot { val: Val::OS(v), ids: vec![] });
                 converted_once.push(false);
+            }
+            Op::ScratchBuf(size, al) => {
+                // (a zero-sized request is what the glue does; miri rejects it as a GlobalAlloc contract violation, so that
+                // leg keeps to non-empty buffers)
+                let size = if cfg!(miri) { (*size).max(1) } else { *size };
+                let align = 1usize << (*al % 5);
+                label(if size == 0 { "scratch-buf:empty" } else { "scratch-buf" });
+                unsafe {
+                    let p = diplomat_alloc(size, align);
+                    if p.is_null() || (p as usize) % align != 0 {
+                        return Err(format!("diplomat_alloc({}, {}) returned {:?}", size, align, p));
+                    }
+                    std::ptr::write_bytes(p, 0xA5, size);
+                    diplomat_free(p, size, align);
+                }
             }
             Op::NewBoxStr(n) => {
                 let s: String = "aé€".chars().cycle().take(*n).collect();
@@ -360,6 +383,7 @@ pub fn strategy() -> impl Strategy<Value = Case> {
         2 => idx.clone().prop_map(Op::Clone),
         2 => idx.clone().prop_map(Op::AsRef),
         3 => idx.prop_map(Op::Drop),
+        1 => (prop_oneof![Just(0usize), Just(0usize), 1usize..40], any::<u8>()).prop_map(|(n, a)| Op::ScratchBuf(n, a)),
     ];
     proptest::collection::vec(op, 1..24).prop_map(|ops| Case { ops })
 }
